@@ -414,6 +414,26 @@ func init() {
 		r.ghostSig[sig] = ghostSig{key, pay}
 		return nil
 	}
+	// NewSignature: a signature object that carries a JWS (non-nil) and is bound to (key, payload)
+	intrinsics[v+"NewSignature"] = func(fr *frame, args []value) value {
+		r := fr.i.run
+		if r.ghostSig == nil {
+			r.ghostSig = map[*value]ghostSig{}
+		}
+		dp := fr.i.prog.ImportedPackage("github.com/invopop/gobl/dsig")
+		jp := fr.i.prog.ImportedPackage("github.com/go-jose/go-jose/v4")
+		if dp == nil || jp == nil {
+			unsup("dsig / go-jose not loaded")
+		}
+		var jws value = zero(jp.Type("JSONWebSignature").Type())
+		st := zero(dp.Type("Signature").Type()).(structure)
+		st[0] = &jws
+		var cell value = st
+		key, _ := args[0].(iface).v.(*value)
+		pay := args[1].(iface).v.(*value)
+		r.ghostSig[&cell] = ghostSig{key, pay}
+		return iface{t: types.NewPointer(dp.Type("Signature").Type()), v: &cell}
+	}
 	intrinsics[v+"BindParsed"] = func(fr *frame, args []value) value {
 		fr.i.run.ghostParsed = args[0].(iface).v
 		return nil
@@ -662,6 +682,121 @@ func init() {
 	}
 	intrinsics["github.com/invopop/gobl/cal.Today"] = today
 	intrinsics["github.com/invopop/gobl/cal.TodayIn"] = today
+
+	// ---- digest flow: serialisation, canonicalisation and hashing as injective uninterpreted functions
+	uf := func(fr *frame, name string, arg *smt.Term) *smt.Term {
+		r := fr.i.run
+		c := r.ctx
+		res := c.UF(name, smt.SInt, arg)
+		if r.ufApps == nil {
+			r.ufApps = map[string][][2]*smt.Term{}
+		}
+		for _, p := range r.ufApps[name] {
+			if p[1] == res {
+				return res
+			}
+			// injectivity instance (assumption: distinct contents have distinct serialisations / canonical forms / digests)
+			r.assumeInternal(c.Implies(c.Eq(p[1], res), c.Eq(p[0], arg)), "injectivity of "+name)
+		}
+		r.ufApps[name] = append(r.ufApps[name], [2]*smt.Term{arg, res})
+		return res
+	}
+	intrinsics[v+"BindContent"] = func(fr *frame, args []value) value {
+		r := fr.i.run
+		if r.ghostContent == nil {
+			r.ghostContent = map[*value]*smt.Term{}
+		}
+		obj := args[0].(iface).v.(*value)
+		r.ghostContent[obj] = fr.i.term(args[1])
+		return nil
+	}
+	intrinsics[v+"DigestOf"] = func(fr *frame, args []value) value {
+		t := fr.i.term(args[0])
+		return opq{uf(fr, "SHA256", uf(fr, "C14N", uf(fr, "MARSHAL", t))), 64}
+	}
+	intrinsics["encoding/json.Marshal"] = func(fr *frame, args []value) value {
+		r := fr.i.run
+		if r.ghostContent == nil {
+			return notHandled{}
+		}
+		a, ok := args[0].(iface)
+		if !ok {
+			return notHandled{}
+		}
+		p, ok := a.v.(*value)
+		if !ok {
+			unsup("json.Marshal of a value that is not a bound document")
+		}
+		t, bound := r.ghostContent[p]
+		if !bound {
+			unsup("json.Marshal of an object whose content was not bound by the harness")
+		}
+		return tuple{opq{uf(fr, "MARSHAL", t), -1}, iface{}}
+	}
+	intrinsics["github.com/invopop/gobl/c14n.CanonicalJSON"] = func(fr *frame, args []value) value {
+		if fr.i.run.ghostContent == nil {
+			return notHandled{}
+		}
+		// the argument is a *bytes.Reader over the serialised bytes
+		rd, ok := args[0].(iface)
+		if !ok {
+			unsup("CanonicalJSON of a non-reader")
+		}
+		st, ok := (*rd.v.(*value)).(structure)
+		if !ok || len(st) == 0 {
+			unsup("CanonicalJSON: unexpected reader shape")
+		}
+		o, ok := st[0].(opq)
+		if !ok {
+			unsup("CanonicalJSON of bytes that are not an abstract serialisation")
+		}
+		return tuple{opq{uf(fr, "C14N", o.t), -1}, iface{}}
+	}
+	intrinsics["github.com/invopop/gobl/dsig.NewSHA256Digest"] = func(fr *frame, args []value) value {
+		o, ok := args[0].(opq)
+		if !ok {
+			return notHandled{}
+		}
+		pkg := fr.i.prog.ImportedPackage("github.com/invopop/gobl/dsig")
+		st := zero(pkg.Type("Digest").Type()).(structure)
+		st[0] = "sha256"
+		st[1] = opq{uf(fr, "SHA256", o.t), 64}
+		var cell value = st
+		return &cell
+	}
+	flagErr := func(fr *frame, name string) (value, bool) {
+		f, ok := fr.i.run.ghostFlags[name]
+		if !ok {
+			return nil, false
+		}
+		if b, isB := f.(bool); isB && b {
+			return iface{}, true
+		}
+		return fr.i.opaqueError(name+" failed", iface{}), true
+	}
+	intrinsics["(*github.com/invopop/gobl/schema.Object).Calculate"] = func(fr *frame, args []value) value {
+		if v, ok := flagErr(fr, "document.Calculate"); ok {
+			return v
+		}
+		return notHandled{}
+	}
+	intrinsics["github.com/invopop/validation.ValidateStructWithContext"] = func(fr *frame, args []value) value {
+		if v, ok := flagErr(fr, "validate.struct"); ok {
+			return v
+		}
+		return notHandled{}
+	}
+
+	// context.WithValue without the reflectlite comparability check
+	intrinsics["context.WithValue"] = func(fr *frame, args []value) value {
+		pkg := fr.i.prog.ImportedPackage("context")
+		if pkg == nil || pkg.Type("valueCtx") == nil {
+			unsup("context.WithValue")
+		}
+		vt := pkg.Type("valueCtx").Type()
+		var cell value = structure{args[0], args[1], args[2]}
+		return iface{t: types.NewPointer(vt), v: &cell}
+	}
 
 	// errors / fmt: opaque error objects
 	intrinsics["fmt.Errorf"] = func(fr *frame, args []value) value {
